@@ -209,6 +209,9 @@ class _CryptConfig:
             if scheme:
                 # normalize scheme option
                 key, value = norm_scheme_option(key, value)
+                if value is None:
+                    # e.g. truncate_error="none": not set, like an explicit None (above)
+                    continue
 
                 # e.g. things like "min_rounds" should never be set cross-scheme
                 # this will be fatal under 2.0.
